@@ -110,7 +110,7 @@ def report(pid, tier, seed, t0, res):
         cx, errs = (None, [])
         if any(core_match(k, {'meta': lem.meta, 'theorem': lem.name}) for k in known):      # a listed finding: no search, it is reported as KNOWN-FINDING
             viol.append(({'kind': 'unproved', 'theorem': lem.name, 'statement': lem.statement()[:2000], 'meta': lem.meta, 'coq_error': err[-600:]}, False)); continue
-        try: cx, errs = lem.search(idx, seed) if hasattr(lem, 'search') else (None, ['no search for implication-shaped / IEEE-enumeration statements']) if (getattr(lem, 'raw_stmt', False) or getattr(lem, 'mode', None) == 'ieee') else search_counterexample(idx, lem, seed)
+        try: cx, errs = (lem.spot_cx, []) if getattr(lem, 'spot_cx', None) else lem.search(idx, seed) if hasattr(lem, 'search') else (None, ['no search for implication-shaped / IEEE-enumeration statements']) if (getattr(lem, 'raw_stmt', False) or getattr(lem, 'mode', None) == 'ieee') else search_counterexample(idx, lem, seed)
         except Exception as e: errs = ['search failed: %r' % e]
         obj = {'kind': 'counterexample' if cx else 'unproved', 'theorem': lem.name, 'statement': lem.statement()[:2000], 'meta': lem.meta, 'coq_error': err[-600:], 'how_found': 'lemma failed; both sides evaluated with the IEEE/Z instance under vm_compute on %s candidate inputs' % ('600'), 'search_errors': errs[:2]}
         if cx:
